@@ -159,7 +159,25 @@ def dibs_call(rng):
         return call_impl(f)
     c['impl'] = impl
     c['desc'] = dict(d, family='history-dibs-%s-%s' % (k1, k2))
-    c['oracle'] = lambda out: repeatable(key, out)
+
+    def oracle(out):
+        bad = repeatable(key, out)
+        if bad or out[0] != 'ok':
+            return bad
+        # the same call in a FRESH copy of the module (no class or module state left by earlier calls)
+        import importlib.util
+        spec = importlib.util.spec_from_file_location('dibs_fresh_copy', dibs.__file__)
+        fresh = importlib.util.module_from_spec(spec)
+        spec.loader.exec_module(fresh)
+        try:
+            m = fresh.CorpusSummary(list(train), separator=Separator(*sep), level=level)
+            ref = ('ok', list(fresh.segment(list(test), m, type=typ, threshold=float(thr), pwb=None if pwb is None else float(pwb))))
+        except Exception as e:  # noqa
+            ref = ('raise', type(e).__name__)
+        if out[1][1] != ref:
+            return 'dibs.segment returns %r after the earlier calls of this history, %r in a fresh copy of the module' % (out[1][1], ref)
+        return None
+    c['oracle'] = oracle
     return c
 
 
